@@ -40,7 +40,7 @@ const GEN_SEED: u64 = 19_19_19;
 const CFG: Config = Config { days: 2, versions: 2 };
 
 fn alpha(n: u8, anc: u8, foreign: bool, dup: bool, ages: &[i64]) -> Alphabet {
-    Alphabet { n_clients: n, anc_max: anc, foreign, dup_payload: dup, snapshots: true, ages: ages.to_vec() }
+    Alphabet { n_clients: n, anc_max: anc, foreign, dup_payload: dup, snapshots: true, ages: ages.to_vec(), big_payload: false }
 }
 
 fn gen_params(a: Alphabet, depth: usize) -> SeqParams {
@@ -207,6 +207,38 @@ pub fn generate(out: &Path) -> Result<(), String> {
             n += 1;
         }
     }
+    // ---- 3. payloads of exactly the size limit (the files are highly regular: stored gzipped)
+    {
+        let hist = vec![COp::AvSmall, COp::AvMax, COp::AsMax, COp::AvSmall];
+        let rec = ecrash::record(&hist, GEN_SEED)?;
+        let known: Vec<Uuid> = rec.tab.all_uuids();
+        let img: DirImage = rec.final_files.iter().filter(|(k, _)| !k.ends_with("-shm")).map(|(k, v)| (k.clone(), v.clone())).collect();
+        let got = ecrash::recover(&img, GEN_SEED, &known, false).map_err(|e| format!("pinned tree cannot read its own limit-sized directory: {e}"))?;
+        if got != ecrash::expected_state(rec.models.last().unwrap(), &rec.tab) {
+            return Err("pinned tree reads back something else than it stored (limit-sized payloads)".into());
+        }
+        let d = out.join(format!("raw-{n:04}"));
+        write_dir_image(&d, &img);
+        for name in img.keys() {
+            let st = std::process::Command::new("gzip").arg("-9").arg(d.join(name)).status().map_err(|e| format!("gzip: {e}"))?;
+            if !st.success() {
+                return Err("gzip failed".into());
+            }
+        }
+        let clients: Vec<Value> = got.clients.iter().map(|(c, (chain, snap))| json!({
+            "client": c,
+            "chain": chain.iter().map(|(i, p, h, l)| json!([i.to_string(), p.to_string(), format!("{h:016x}"), l])).collect::<Vec<_>>(),
+            "snapshot": snap.as_ref().map(|(v, h, l)| json!([v.to_string(), format!("{h:016x}"), l])),
+        })).collect();
+        let meta = json!({
+            "kind": "raw", "seed": GEN_SEED, "description": "clean shutdown; a version and a snapshot of exactly the 100 MiB limit (files gzipped)", "history": hist.iter().map(|c| c.name()).collect::<Vec<_>>(),
+            "has_wal": false, "compressed": true,
+            "known_ids": known.iter().map(|u| u.to_string()).collect::<Vec<_>>(),
+            "expected": clients,
+        });
+        std::fs::write(d.join("meta.json"), serde_json::to_string_pretty(&meta).unwrap()).map_err(|e| e.to_string())?;
+        n += 1;
+    }
     println!("corpus: {nseq} explored states + {} crash/large-payload directories written to {}", n - nseq, out.display());
     Ok(())
 }
@@ -220,6 +252,17 @@ pub fn check_fixture(dir: &Path, depth: usize) -> (Vec<(String, String)>, u64, u
     };
     let mut files = read_dir_image(dir);
     files.remove("meta.json");
+    // regular multi-megabyte files are stored gzipped
+    let gz: Vec<String> = files.keys().filter(|k| k.ends_with(".gz")).cloned().collect();
+    for name in gz {
+        files.remove(&name);
+        match std::process::Command::new("gzip").arg("-dc").arg(dir.join(&name)).output() {
+            Ok(o) if o.status.success() => {
+                files.insert(name.trim_end_matches(".gz").to_string(), o.stdout);
+            }
+            other => return (vec![("machinery".into(), format!("cannot decompress {}: {:?}", name, other.map(|o| o.status)))], 0, 0),
+        }
+    }
     let seed = meta["seed"].as_u64().unwrap_or(1);
     let name = dir.file_name().unwrap().to_string_lossy().to_string();
     if meta["kind"] == "seq" {
